@@ -1881,4 +1881,93 @@ theorem end_state (p : Prog) :
     · exact hd
     · have := (hs.head c hc).1; omega
 
+/-! ### what never changes during a run: no selectables, the log observers -/
+
+def Static (p : Prog) (w : W) : Prop := w.sels = [] ∧ w.u.observers = (duringObs p).1
+
+theorem static_reach {p : Prog} {k : Nat} {w w' : W} (hr : Reach k w w') (h : Static p w) : Static p w' :=
+  Reach.inv (Static p) (fun w f hf h => ⟨h.1, by simp [hf, h.2]⟩) (fun _ _ _ _ h => h)
+    (fun w b h => ⟨by simpa using h.1, by simpa using h.2⟩) hr h
+
+theorem static_pop {p : Prog} {w : W} (h : Static p w) (c : DCall (QAct CAct)) (rest : List (DCall (QAct CAct))) :
+    Static p (execCall (exec p) c { w with calls := rest }) := by
+  rcases c with ⟨t, q⟩
+  cases q with
+  | timeout => exact ⟨by simpa [execCall] using h.1, by simpa [execCall] using h.2⟩
+  | user l a =>
+    cases a with
+    | noop => exact h
+    | stop => simp only [execCall, exec]; split <;> exact h
+    | stageDone r =>
+      obtain ⟨k, hk, _⟩ := resume_reach p r (logEvent (.user l) { w with calls := rest })
+      exact static_reach hk h
+
+theorem static_end (p : Prog) : Static p (afterIter p) := by
+  have h0 : Static p (entryW p) := by
+    obtain ⟨_, h2, _⟩ := prepare_spec p
+    have hs : (prepare p).sels = [] := by
+      have : ∀ (stops : List Nat) (w : W), (schedStops stops w).sels = w.sels := by
+        intro stops; induction stops with
+        | nil => intro w; rfl
+        | cons s rest ih => intro w; simp only [schedStops]; rw [ih]; rfl
+      rw [prepare, this]
+    exact ⟨by simpa [entryW] using hs, by simp [entryW, h2]⟩
+  obtain ⟨k, hk, _⟩ := startSetUp_reach p (entryW p)
+  have hS : Static p (startW p) := static_reach hk h0
+  have hE : Static p (spinPhase p (prepare p)) := by
+    rw [spinPhase_eq]
+    exact spin_inv (exec p) _ (Static p) (fun _ c rest h _ _ => static_pop h c rest) (fun _ _ _ h _ _ => h) _ _ hS
+  have hA : Static p (afterSpin p) := hE
+  unfold afterIter; split
+  · exact drain_inv (exec p) (Static p) (fun _ c rest h _ _ => static_pop h c rest) _ _
+      (drain_inv (exec p) (Static p) (fun _ c rest h _ _ => static_pop h c rest) _ _ hA)
+  · exact hA
+
+/-! ### the log fixtures put the observers back -/
+
+theorem removeAll_spec (obs : List Nat) (hnd : obs.Nodup) : removeAll obs = ([], obs) := by
+  -- generalised: removing the observers `r.reverse` (last first) from `pre ++ r.reverse`
+  have key : ∀ (r pre acc : List Nat), (pre ++ r.reverse).Nodup →
+      r.foldl (fun (a : List Nat × List Nat) o => (a.1.erase o, o :: a.2)) (pre ++ r.reverse, acc) = (pre, r.reverse ++ acc) := by
+    intro r
+    induction r with
+    | nil => intro pre acc _; simp
+    | cons x r ih =>
+      intro pre acc hnd
+      rw [List.reverse_cons] at hnd ⊢
+      rw [List.foldl_cons]
+      have hnd' : ((pre ++ r.reverse) ++ [x]).Nodup := by rw [List.append_assoc]; exact hnd
+      have hx : x ∉ pre ++ r.reverse := by
+        intro hx
+        exact (List.nodup_append.mp hnd').2.2 x hx x (by simp) rfl
+      have herase : (pre ++ (r.reverse ++ [x])).erase x = pre ++ r.reverse := by
+        rw [← List.append_assoc, List.erase_append_right _ hx]
+        simp
+      simp only [herase]
+      rw [ih pre (x :: acc) (List.nodup_append.mp hnd').1]
+      simp
+  have := key obs.reverse [] [] (by simpa using hnd)
+  simpa [removeAll] using this
+
+theorem reAdd_spec (obs cs : List Nat) : reAdd obs cs = obs ++ cs := by
+  induction cs generalizing obs with
+  | nil => simp [reAdd]
+  | cons c rest ih => simp only [reAdd, List.foldl_cons] at ih ⊢; rw [ih]; simp
+
+theorem erase_snoc_new (l : List Nat) (x : Nat) (h : x ∉ l) : (l ++ [x]).erase x = l := by
+  rw [List.erase_append_right _ h]; simp
+
+theorem afterObs_eq (p : Prog) : afterObs p = List.range p.nObs := by
+  have hnd : (List.range p.nObs).Nodup := List.nodup_range
+  have h1 : p.nObs ∉ List.range p.nObs := by simp
+  have h2 : p.nObs + 1 ∉ List.range p.nObs := by simp
+  simp only [afterObs, duringObs]
+  cases hs : p.suppress <;> cases hst : p.store <;>
+    simp [removeAll_spec _ hnd, reAdd_spec, erase_snoc_new, h1, h2, List.erase_append_right]
+
+theorem duringObs_length (p : Prog) : (duringObs p).1.length = duringCount p := by
+  have hnd : (List.range p.nObs).Nodup := List.nodup_range
+  simp only [duringObs, duringCount]
+  cases hs : p.suppress <;> cases hst : p.store <;> simp [removeAll_spec _ hnd]
+
 end TTV.Props.C14
